@@ -356,6 +356,11 @@ func c16Check(r *rig) (string, string, string) {
 		}
 		return "", "", "no stop"
 	}
+	if !r.finished && r.now()-r.stopAt < 60*time.Second {
+		// the run ended (goal reached on the harness's own clock tick) at the very instant the plan's
+		// stop was issued by a sender goroutine: the sender was never given time to act on it
+		return "", "", "run over when the stop was requested"
+	}
 	if !r.finished {
 		return fmt.Sprintf("C16: %s stop requested at %.3fs; the sender has not exited %.0f s (virtual) later\n%s\nsender goroutines:\n%s", r.stopped, r.stopAt.Seconds(), (r.now() - r.stopAt).Seconds(), tr(), r.stuck()), "", ""
 	}
@@ -600,7 +605,8 @@ func TestC02Env(t *testing.T) {
 				// file; two lengths, so that either the poll or the new version's data request comes first)
 				out = pick(ev.Menu, "refuse", "lost", "crash", "recv-restart", "down:")
 			case "data":
-				out = pick(ev.Menu, "corrupt:", "lost", "crash", "recv-restart")
+				// (gkfail: the receiver fails on part k and answers 206 with the number of parts it took)
+				out = pick(ev.Menu, "corrupt:", "gkfail:", "lost", "crash", "recv-restart")
 			case "done", "remove", "persist", "sent":
 				out = pick(ev.Menu, "crash")
 			case "sync":
@@ -619,7 +625,7 @@ func TestC02Env(t *testing.T) {
 			}
 			return append(out, pick(ev.Menu, "file:")...)
 		}, c02Check,
-		"at every Store.Remove and Cache.Done of the sender: the receiver durably holds a validated copy with the hash of the bytes being released, and a positive poll answer asked after the last acknowledgement precedes the release; plans with <= 2 deviations over: poll request refused / answer lost / receiver unreachable for 35 or 60 s from a poll on, a corrupted part (validation failure), lost data answer, sender crash at data / poll / done / delete / cache-write / sent-log actions, receiver restart, the source file rewritten (same size) or appended to at any sender action except at the very instant of the unlink, followed by a slow (45 s) comparison of a file with its cache entry; delete on and off, one-shot and daemon, with and without a minimum age of 60 s, with a delete-delay of 10 min; a receiver that delivered an older version of the same name in an earlier run")
+		"at every Store.Remove and Cache.Done of the sender: the receiver durably holds a validated copy with the hash of the bytes being released, and a positive poll answer asked after the last acknowledgement precedes the release; plans with <= 2 deviations over: poll request refused / answer lost / receiver unreachable for 35 or 60 s from a poll on, a corrupted part (validation failure), a part the receiver fails on (206 answer), lost data answer, sender crash at data / poll / done / delete / cache-write / sent-log actions, receiver restart, the source file rewritten (same size) or appended to at any sender action except at the very instant of the unlink, followed by a slow (45 s) comparison of a file with its cache entry; delete on and off, one-shot and daemon, with and without a minimum age of 60 s, with a delete-delay of 10 min; a receiver that delivered an older version of the same name in an earlier run")
 }
 
 // c16Drained: everything the scans found was transmitted completely and polled to a verdict;
